@@ -6,7 +6,7 @@
    class) is compared, not proved; LAPACK's choice in degenerate eigenspaces is
    only checked relationally. *)
 From Coq Require Import List ZArith Arith Bool QArith Qcanon.
-From MsmV Require Import Lib.Result Lib.PyList Lib.QMat Model.Ergodic Model.Peq Proofs.QMatFacts Proofs.HSFacts Proofs.ErgodicFacts Proofs.UniqueFacts Proofs.PeqFacts.
+From MsmV Require Import Lib.Result Lib.PyList Lib.QMat Model.Ergodic Model.Peq Proofs.QMatFacts Proofs.HSFacts Proofs.ErgodicFacts Proofs.UniqueFacts Proofs.PeqFacts Proofs.GaussFacts Proofs.Totality.
 Import ListNotations.
 Local Open Scope nat_scope.
 
@@ -56,6 +56,16 @@ Theorem peq_unique : forall n T allow v w, 0 < n -> wf n n T -> is_ergodic atol8
   (forall x, In x w -> (0 <= x)%Qc) -> qsum w = 1%Qc -> vmul w T = w -> v = w.
 Proof. exact peq_is_the_stationary_vector. Qed.
 Print Assumptions peq_unique.
+
+(* existence: for a stochastic matrix with an entrywise positive power the exact solver always finds the
+   stationary probability vector (the model never answers "no unique stationary vector" there); together with
+   stationary_unique_thm: it exists, is found, and is the only one *)
+Theorem stationary_exists_thm : forall n k T, 0 < n -> wf n n T -> entries_nonneg T -> rows_sum_one T ->
+  (forall i j, i < n -> j < n -> (0 < mget (mpow T k) i j)%Qc) ->
+  exists pi, stationary T = Some pi /\ length pi = n /\
+    vmul pi T = pi /\ qsum pi = 1%Qc /\ (forall t, In t pi -> (0 <= t)%Qc).
+Proof. exact stationary_exists_spec. Qed.
+Print Assumptions stationary_exists_thm.
 
 Example peq_example :
   let T := row_normalize (mat_of_Z [[1; 1; 0]; [1; 3; 0]; [1; 1; 2]]%Z) in
